@@ -13,4 +13,11 @@ IEF = {
         'first iteration: last_fc is None and fine_class() never returns None, so the else arm binds nfc before any increment',
     ('Extractor.rle_fc_c', 'UNBOUND', 'nc'):
         'first iteration: last_c is None and c is a character, so the else arm binds nc before any increment',
+    ('SQLDatabaseHandler.check_table_exists', 'UNBOUND', 'allsql'):
+        'the arm without allsql needs a falsy schema under postgres/mysql, but default_schema() returns a non-empty '
+        'schema or raises for those database types; the sqlite arm binds it',
+    ('BaseConstraintVerifier.verify_rex_constraint', 'ARITY', 'self.detect_rex_constraint(colname, violations)'):
+        'binds for the pandas detector; the three-argument base stub is reached only with a database verifier under '
+        '`detect`, and detection is documented as not implemented for databases (detect_db_table raises '
+        'NotImplementedError; verify_db_table never sets detect)',
 }
